@@ -163,14 +163,32 @@ def _do(w, ev, cfg):
             w.new_keys(number_of_keys=3)
         elif kind == 'path_gap':
             _, ch, idx = ev
-            w.key_for_path([ch, idx])
+            arg = [ch, idx]
+            k1 = w.key_for_path(arg)
+            if arg != [ch, idx]:
+                raise _ArgMutated('key_for_path changed the path list it was given: %r -> %r' % ([ch, idx], arg))
+            # the same request again (the same list object, as a caller keeping a table of paths would): same key
+            k2 = w.key_for_path(arg)
+            if k2.path != k1.path or k2.address != k1.address:
+                raise _ArgMutated('the same path list gives %s then %s' % (k1.path, k2.path))
             explicit.add((w.witness_type, w.default_account_id, ch, idx))
         elif kind == 'path_bulk':
             # several keys from an explicit path in one call
             _, ch, idx, cnt = ev
-            w.keys_for_path([ch, idx], number_of_keys=cnt)
+            arg = [ch, idx]
+            w.keys_for_path(arg, number_of_keys=cnt)
+            if arg != [ch, idx]:
+                raise _ArgMutated('keys_for_path changed the path list it was given: %r -> %r' % ([ch, idx], arg))
             for j in range(cnt):
                 explicit.add((w.witness_type, w.default_account_id, ch, idx + j))
+        elif kind == 'import_foreign':
+            # a key that does not belong to the wallet's tree (a leaf of another seed, child number 7): it is kept
+            # beside the tree and must not consume indices of the wallet's own chains
+            from bitcoinlib.keys import HDKey
+            other = bip32.derive(bip32.master(b'\x5a' * 32), [7])
+            hk = HDKey(key=other.secret.to_bytes(32, 'big'), chain=other.chain, depth=1, child_index=7,
+                       parent_fingerprint=other.parent_fp, network=cfg['network'], witness_type=cfg['wt'])
+            w.import_key(hk)
         elif kind == 'new_account':
             w.new_account()
         elif kind == 'new_key_acc1':
@@ -214,10 +232,16 @@ def _do(w, ev, cfg):
         return w, 'refused', explicit
     except _WrongAccount as e:
         return w, 'wrong_account:' + str(e), explicit
+    except _ArgMutated as e:
+        return w, 'arg_mutated:' + str(e), explicit
     return w, 'ok', explicit
 
 
 class _WrongAccount(Exception):
+    pass
+
+
+class _ArgMutated(Exception):
     pass
 
 
@@ -226,6 +250,8 @@ def _rows(w):
     out = {}
     dup = []
     for k in w.keys(depth=w.key_depth):
+        if str(k.path).startswith('import_key'):
+            continue        # imported foreign keys are not part of the derivation tree
         key = (k.witness_type, k.account_id, k.change, k.address_index, k.cosigner_id)
         if key in out:
             dup.append(key)
@@ -254,6 +280,10 @@ def sub_hist(case):
                                         'cfg': {k: v for k, v in cfg.items() if k != 'events'}}})
                 return {'devs': devs, 'ret': {'state': ['broken', tag, len(hist)], 'enabled': []}, 'out': 'raises'}
             explicit_all |= explicit
+            if label.startswith('arg_mutated:'):
+                devs.append({'sig': 'argument_of_the_caller_changed_or_same_request_answered_differently|%s' % ev[0],
+                             'detail': {'what': label[12:]}})
+                label = 'ok'
             if label.startswith('wrong_account:'):
                 devs.append({'sig': 'key_of_another_account_returned|%s' % ev[0], 'detail': {'what': label[14:]}})
                 label = 'ok'
@@ -350,10 +380,10 @@ SUBS = {'hist': sub_hist}
 
 EV_FULL = [['new_key'], ['new_key_change'], ['get_key'], ['get_key_change'], ['get_keys2'], ['new_keys3'],
            ['path_gap', 0, 7], ['path_gap', 0, 3], ['path_gap', 1, 2], ['new_account'], ['new_key_acc1'], ['new_key_otherwt'],
-           ['get_keys_otherwt'], ['path_bulk', 1, 0, 3],
+           ['get_keys_otherwt'], ['path_bulk', 1, 0, 3], ['import_foreign'],
            ['mark_used'], ['public_master'], ['reopen']]
 EV_SMALL = [['new_key'], ['new_key_change'], ['get_key'], ['get_keys2'], ['path_gap', 0, 5], ['path_gap', 0, 2],
-            ['path_bulk', 1, 0, 3],
+            ['path_bulk', 1, 0, 3], ['import_foreign'],
             ['mark_used'], ['public_master'],
             ['new_account'], ['reopen']]
 EV_WATCH = [['new_key'], ['new_key_change'], ['get_key'], ['get_keys2'], ['new_keys3'], ['path_gap', 0, 7],
